@@ -225,8 +225,10 @@ func (in *inst) opIngestBlocksOrRaw(v string, big bool) (bool, error) {
 func (in *inst) mutate(v string) (bool, error) {
 	x := in.r.Intn(100)
 	switch {
-	case x < 8:
+	case x < 5:
 		return in.opIngestBlocksOrRaw(v, false)
+	case x < 9:
+		return in.opIngestOffline(v)
 	case x < 22:
 		return in.opWriteRaw(v, true)
 	case x < 40:
@@ -246,7 +248,7 @@ func (in *inst) mutate(v string) (bool, error) {
 
 func run(c *drv.Ctx) error {
 	c.Rule("a sequence = one labelmap instance (32^3 blocks; grids of 2x2x2..3x3x3 blocks, some at negative block coordinates) driven by a random legal " +
-		"interleaving of POST raw / POST blocks ingest, POST raw?mutate=true, merge, cleave, split-supervoxel (single voxel, all but one, all, half-spaces, alternating rows, random, partly outside), " +
+		"interleaving of POST raw / POST blocks ingest, offline ingest (POST blocks?noindexing=true + POST indices + POST mappings), POST raw?mutate=true, merge, cleave, split-supervoxel (single voxel, all but one, all, half-spaces, alternating rows, random, partly outside), " +
 		"renumber, split (when enabled) and documented-illegal requests with commit/newversion/branch; after every settled mutation the read surface is compared with the brute-force model at the mutated version, " +
 		"at the end at every version. A case = one endpoint compared for one label (or the whole volume) at one version and step; key = (sequence, step, phase, version, endpoint, label). " +
 		"Non-trivial: the compared body spans >=2 blocks or >=2 supervoxels, the supervoxel spans >=2 blocks, or (volume reads) the last mutation at that version changed >=1 voxel's body or supervoxel; " +
@@ -256,7 +258,7 @@ func run(c *drv.Ctx) error {
 	c.Assume("written supervoxel ids never reuse ids retired by a split or ids created for cleave/renumber/split bodies (help text: those never overlap supervoxel ids)")
 	c.Assume("idle = the instance's own Updating/ScaleUpdating flags (w.Settle) AND no goroutine inside the labelmap/downres packages (c08.quiesce): POST raw's index aggregation raises no flag")
 	c.Extra("endpoints_skipped", []string{"sparsevol format=srles/blocks (only rles decoded)", "sparsevols-coarse", "indices-compressed (lz4)", "lastmod (metadata only)",
-		"raw/blocks lz4/gzip/google compressions", "proximity (stub)", "history/mutations (log format)", "POST index/indices/mappings ingest", "ingest-supervoxels",
+		"raw/blocks lz4/gzip/google compressions", "proximity (stub)", "history/mutations (log format)", "POST index (single; POST indices and POST mappings are used)", "ingest-supervoxels",
 		"mapping of voxel-less supervoxels that still carry a mapping (behaviour undocumented)", "maxlabel exactness (only >= labels introduced at the version)"})
 	bin, err := c.Build("dvidw", "")
 	if err != nil {
